@@ -31,8 +31,12 @@ pub enum FileState {
     /// the first request fails with std::io::Error of kind Interrupted, a second request for the same path would succeed
     /// (no request is ever repeated: a failure means "try the next candidate")
     InterruptedOnce,
+    /// well-formed TZif container whose version octet is not one the decoder supports ('5')
+    UnsupportedVersion,
+    /// well-formed version-1 file followed by extra octets
+    TrailingData,
 }
-const STATES: [FileState; 12] = [
+const STATES: [FileState; 14] = [
     FileState::InterruptedOnce,
     FileState::UnreadablePermission,
     FileState::UnreadableNotFound,
@@ -45,6 +49,8 @@ const STATES: [FileState; 12] = [
     FileState::SemanticTransitions,
     FileState::SemanticFooter,
     FileState::SemanticType,
+    FileState::UnsupportedVersion,
+    FileState::TrailingData,
 ];
 
 fn semantic_file(which: FileState) -> Vec<u8> {
@@ -74,6 +80,14 @@ fn bytes_of(s: FileState) -> Option<Vec<u8>> {
         FileState::InvalidWithMagic => Some(b"TZif2\0\0\0truncated".to_vec()),
         FileState::EmptyFile => Some(vec![]),
         FileState::SemanticTransitions | FileState::SemanticFooter | FileState::SemanticType => Some(semantic_file(s)),
+        FileState::UnsupportedVersion => Some(footer_file(b'5', b"<+01>-1")),
+        FileState::TrailingData => {
+            use refmodel::tzif::{file, Block};
+            let b = Block { trans: vec![], types: vec![(3600, 0, 0)], chars: b"CET\0".to_vec(), leaps: vec![], isstd: vec![], isut: vec![] };
+            let mut f = file(0, &b, None, None);
+            f.extend_from_slice(b"\nCET-1\n");
+            Some(f)
+        }
     }
 }
 
@@ -300,6 +314,71 @@ fn check_config(value: &str, dirs: &[&str], vfs: &BTreeMap<String, FileState>, l
     }
 }
 
+/// one `TimeZoneSettings` value used for several lookups in a row: every sequence of up to three values over names that exist in
+/// the first, the second or both directories (with different contents), under every assignment of {unreadable, zone A, zone B}
+/// to the six candidate paths; each call must open the paths and give the outcome the protocol model gives for that call alone
+fn sweep_sequences(rec: &Recorder) -> Tally {
+    let dirs: [&str; 2] = ["/first", "/second"];
+    let names = ["One", "Two", "Three"];
+    let values = ["One", "Two", "Three", ":Two", "/second/Two", "UTC0"];
+    let paths: Vec<String> = dirs.iter().flat_map(|d| names.iter().map(move |n| format!("{d}/{n}"))).collect();
+    let st = [FileState::Unreadable, FileState::ValidA, FileState::ValidB];
+    let mut seqs: Vec<Vec<usize>> = vec![];
+    for a in 0..values.len() {
+        for b in 0..values.len() {
+            seqs.push(vec![a, b]);
+            for c in 0..values.len() {
+                seqs.push(vec![a, b, c]);
+            }
+        }
+    }
+    let t = (0..3usize.pow(paths.len() as u32))
+        .into_par_iter()
+        .map(|code| {
+            let mut tl = Tally::default();
+            let mut vfs = BTreeMap::new();
+            let mut c = code;
+            for p in &paths {
+                vfs.insert(p.clone(), st[c % 3]);
+                c /= 3;
+            }
+            // a value spelled like a TZ string names files too: they do not exist
+            for d in dirs {
+                vfs.insert(format!("{d}/UTC0"), FileState::Unreadable);
+            }
+            for seq in &seqs {
+                tl.evals += 1;
+                tl.nontrivial += 1;
+                VFS.with(|v| *v.borrow_mut() = vfs.clone());
+                let settings = TimeZoneSettings::new(&dirs, vfs_reader);
+                for (pos, &vi) in seq.iter().enumerate() {
+                    let value = values[vi];
+                    let (exp_paths, exp_out) = model(value, &dirs, &vfs);
+                    LOG.with(|l| l.borrow_mut().clear());
+                    SEEN.with(|s| s.borrow_mut().clear());
+                    let case = || json!({"kind":"resolve_sequence","values":seq.iter().map(|&i| values[i]).collect::<Vec<_>>(),"failing_position":pos,"dirs":dirs,"vfs":vfs.iter().map(|(k,v)| (k.clone(), json!(format!("{v:?}")))).collect::<serde_json::Map<_,_>>()});
+                    let got = match guard(|| settings.parse_posix_tz(value)) {
+                        Ok(g) => classify(g),
+                        Err(m) => {
+                            rec.violation("sequences", case(), json!("no panic"), json!(m));
+                            break;
+                        }
+                    };
+                    let log: Vec<String> = LOG.with(|l| l.borrow().clone());
+                    tl.opens += log.len() as u64;
+                    if log != exp_paths || got != exp_out {
+                        rec.violation("sequences", case(), json!({"paths_opened": exp_paths, "outcome": outcome_name(&exp_out)}), json!({"paths_opened": log, "outcome": outcome_name(&got)}));
+                        break;
+                    }
+                }
+            }
+            tl
+        })
+        .reduce(Tally::default, Tally::merge);
+    rec.sub("sequences", json!({"file_systems": 3usize.pow(paths.len() as u32), "sequences_per_file_system": seqs.len(), "sequences": t.evals, "file_open_requests_compared": t.opens}));
+    t
+}
+
 fn long_values() -> &'static Vec<String> {
     static L: std::sync::OnceLock<Vec<String>> = std::sync::OnceLock::new();
     L.get_or_init(|| {
@@ -440,6 +519,7 @@ pub fn run(args: &Args) -> i32 {
             tl
         })
         .reduce(Tally::default, Tally::merge);
+    let total = total.merge(sweep_sequences(&rec));
     // directory lists of up to 100 000 entries in a child process (a stack overflow aborts the process)
     if !args.digest_mode {
         let exe = std::env::current_exe().expect("exe");
@@ -457,7 +537,7 @@ pub fn run(args: &Args) -> i32 {
     rec.add(total.evals, total.nontrivial);
     rec.add_model(total.evals, total.opens + total.evals, total.evals);
     rec.digest("resolve", total.digest);
-    rec.set_rule("complete product: TZ values x ordered directory lists x every assignment of {unreadable (opaque error, io::Error PermissionDenied, io::Error NotFound, io::Error Interrupted once then readable), valid A, valid B, invalid without magic, invalid with magic, empty, well-formed container with unsorted transitions / bad footer / bad designation} to the candidate paths the model names plus one path that must never be opened; the logged sequence of read requests and the outcome class (incl. the decoded zone) must equal the protocol model's. states = configurations, transitions = file-open requests. non-trivial = configurations with >= 2 opens or a non-zone outcome");
+    rec.set_rule("complete product: TZ values x ordered directory lists x every assignment of {unreadable (opaque error, io::Error PermissionDenied, io::Error NotFound, io::Error Interrupted once then readable), valid A, valid B, invalid without magic, invalid with magic, empty, well-formed container with unsorted transitions / bad footer / bad designation, unsupported version octet, version-1 file with trailing octets} to the candidate paths the model names plus one path that must never be opened; the logged sequence of read requests and the outcome class (incl. the decoded zone) must equal the protocol model's. plus every sequence of 2 or 3 lookups through ONE settings value over 6 values x 729 file systems (each call judged as if made alone). states = configurations, transitions = file-open requests. non-trivial = configurations with >= 2 opens or a non-zone outcome");
     rec.set_exhaustive(true);
     let v = vals[(args.seed as usize * 5 + 6) % vals.len()];
     let d = &dls[(args.seed as usize + 3) % dls.len()];
@@ -473,6 +553,34 @@ pub fn replay(case: &Value, args: &Args) -> i32 {
         let ok = std::process::Command::new(&exe).arg("resolve-long").status().map(|s| s.success()).unwrap_or(false);
         println!("{}", if ok { "REPLAY: case passes" } else { "REPLAY: violation reproduced" });
         return if ok { 0 } else { 1 };
+    }
+    if case["kind"] == "resolve_sequence" {
+        let dirs_owned: Vec<String> = case["dirs"].as_array().unwrap().iter().map(|x| x.as_str().unwrap().to_string()).collect();
+        let dirs: Vec<&str> = dirs_owned.iter().map(|s| s.as_str()).collect();
+        let mut vfs = BTreeMap::new();
+        for (k, v) in case["vfs"].as_object().unwrap() {
+            let st = STATES.iter().find(|s| format!("{s:?}") == v.as_str().unwrap()).copied().unwrap();
+            vfs.insert(k.clone(), st);
+        }
+        let values: Vec<String> = case["values"].as_array().unwrap().iter().map(|x| x.as_str().unwrap().to_string()).collect();
+        let mut bad = false;
+        for _ in 0..2 {
+            VFS.with(|v| *v.borrow_mut() = vfs.clone());
+            let settings = TimeZoneSettings::new(&dirs, vfs_reader);
+            for value in &values {
+                let (exp_paths, exp_out) = model(value, &dirs, &vfs);
+                LOG.with(|l| l.borrow_mut().clear());
+                SEEN.with(|s| s.borrow_mut().clear());
+                let got = guard(|| settings.parse_posix_tz(value)).map(classify);
+                let log: Vec<String> = LOG.with(|l| l.borrow().clone());
+                println!("{value:?}: opened {log:?} (model {exp_paths:?}), outcome {:?} (model {})", got.as_ref().map(outcome_name), outcome_name(&exp_out));
+                if log != exp_paths || got.as_ref().ok() != Some(&exp_out) {
+                    bad = true;
+                }
+            }
+        }
+        println!("{}", if bad { "REPLAY: violation reproduced" } else { "REPLAY: case passes" });
+        return bad as i32;
     }
     if case["kind"] != "resolve" {
         return 2;
